@@ -19,7 +19,9 @@ for prop in props:
         for l in open(f):
             e = json.loads(l)
             cur = by_key.setdefault(e["key"], [])
-            if len(cur) < PER_KEY.get(prop, 1) and all(c["spec"] != e["spec"] for c in cur):
+            # in-memory (typed) subjects: three specs per key — the key does not say WHICH occurrence of a repeated field a finding is about
+            cap = 3 if "|typed" in e["key"] else PER_KEY.get(prop, 1)
+            if len(cur) < cap and all(c["spec"] != e["spec"] for c in cur):
                 cur.append({"key": e["key"], "spec": e["spec"]}); added += 1
     with open(path, "w") as out:
         for k in sorted(by_key):
